@@ -520,7 +520,8 @@ impl<'a, 'b> Renderer<'a, 'b> {
             }
             _ => {
                 if self.o.nonascii_comments && self.src.bool() {
-                    self.out.push_str(" # größe 中文 😀 é\n");
+                    // (the comment text may start right after the `#`, with a character of any width)
+                    self.out.push_str(*self.src.pick(&[" # größe 中文 😀 é\n", " #中文 comment\n", " #😀\n", " #é\n #Ω next\n", " #→ note ←\n"]));
                     self.kinds |= K_COMMENT | K_NONASCII;
                 } else {
                     // short comments: one character, empty, blank, two in a row
